@@ -164,6 +164,8 @@ def main(tier):
                            "observed_base": obs[bid], "observed_variant": obs[cid], "signature": sig}, sig)
     import fixrel
     fixrel.c10(chk, tier)
+    import typegraph
+    typegraph.run(chk, tier, "C10")
     if docs:
         chk.sample({"doc": docs[0]["doc"], "permutation": "reverse"})
     chk.rule = "pairs (document, permutation of its top-level blocks); distinct = distinct pairs; documents of >= 2 blocks"
@@ -176,6 +178,11 @@ def replay(path):
     if rp.get("kind") in ("fxpair", "fxban"):
         import fixrel
         return fixrel.replay("C10", rp)
+    if rp.get("kind") == "typegraph":
+        import typegraph
+        chk = Check("C10", "quick")
+        typegraph.replay(chk, "C10", rp)
+        return chk.finish()
     chk = Check("C10", "quick")
     obs = harness("run", [rel.case("a", rp["base"]), rel.case("b", rp["variant"])])
     chk.evaluations = 1
